@@ -207,6 +207,13 @@ def handle : List String → String
       match specRow q with
       | some r => match specFrame r args with | some f => s!"ok {r.framesize} {f}" | none => "bad-op"
       | none => "none"
+  | ["spec", "evframe", itype, sa, inum, ig, dg, info] =>
+      match parseNat? itype, optNat sa, optNat inum, optNat ig, optNat dg, parseNat? info with
+      | some t, some sa, some inum, some ig, some dg, some info =>
+          match Spec.eventFrame sa inum dg ig t info with
+          | some f => s!"ok 24 {f}"
+          | none => "none"
+      | _, _, _, _, _, _ => "bad-op"
   | ["spec", "rows"] => " ".intercalate (Spec.commandRows.map (·.qualname))
   | "mk" :: "std" :: n :: args =>
       match findStd n, args.mapM parseArg with
